@@ -5,6 +5,7 @@ import (
 	"strconv"
 	"strings"
 	"testing"
+	"time"
 
 	"pgregory.net/rapid"
 
@@ -53,6 +54,11 @@ func evalC20(c pipeCase) *Failure {
 	if o.Panic != nil {
 		return failf("c20|panic|"+panicKey(o), "%s: panic: %v", what, o.Panic)
 	}
+	return c20Analyze(what, log, tr, conn.Out())
+}
+
+// c20Analyze checks the span forest recorded for ONE connection against the event log.
+func c20Analyze(what string, log *connsim.Log, tr *doubles.Tracer, output []byte) *Failure {
 	events := log.Snapshot()
 	spans := tr.Snapshot()
 	byID := map[int]doubles.Span{}
@@ -118,7 +124,7 @@ func evalC20(c pipeCase) *Failure {
 	framesInRoot := map[int]int{}
 	out := 0
 	frameEnds := map[int]bool{}
-	if _, ends, _ := resp.DecodeAll(conn.Out()); true {
+	if _, ends, _ := resp.DecodeAll(output); true {
 		for _, e := range ends {
 			frameEnds[e] = true
 		}
@@ -160,15 +166,106 @@ func spanKind(s doubles.Span) string {
 	return "command"
 }
 
-func init() { register("c20.pipe", evalC20) }
+// c20Stop: the SERVER ends the connection (Stop while the connection is registered): waiting for its next request,
+// or parked inside a handler operation of a command.
+type c20Stop struct {
+	Reqs  [][]string `json:"reqs"`   // requests answered before Stop
+	InCmd []string   `json:"in_cmd"` // if set: this command is in progress (parked in its first handler call) when Stop is called
+}
+
+func evalC20Stop(c c20Stop) *Failure {
+	srv, rec := newRecServer()
+	log := &connsim.Log{}
+	rec.Log = log
+	tr := doubles.NewTracer(log)
+	srv.SetTracer(tr)
+	srv.SetAuthCommandHandler(rec)
+	srv.SetPort(0)
+	if err := srv.Start(); err != nil {
+		return failf("harness|start", "Start: %v", err)
+	}
+	what := fmt.Sprintf("requests %v, then Stop while the connection is registered (command in progress: %v)", c.Reqs, c.InCmd)
+	parked, release := make(chan struct{}), make(chan struct{})
+	armed := false
+	rec.Gate = func(cl *doubles.Call) {
+		if armed {
+			armed = false
+			close(parked)
+			<-release
+		}
+	}
+	conn := connsim.NewGated(0)
+	conn.Log = log
+	done := connsim.Go(srv, conn)
+	if idle, _ := conn.WaitIdle(nil, serveTimeout()); !idle {
+		srv.Stop()
+		return failf("harness|idle", "the connection did not become idle")
+	}
+	for _, r := range c.Reqs {
+		conn.Feed(resp.Cmd(r...).Bytes())
+		if idle, to := conn.WaitIdle(nil, serveTimeout()); !idle || to {
+			srv.Stop()
+			return stallFailure("c20", what)
+		}
+	}
+	if len(c.InCmd) > 0 {
+		armed = true
+		conn.Feed(resp.Cmd(c.InCmd...).Bytes())
+		select {
+		case <-parked:
+		case <-time.After(serveTimeout()):
+			srv.Stop()
+			return failf("harness|gate", "%v made no handler call", c.InCmd)
+		}
+	}
+	stopped := make(chan struct{})
+	go func() { srv.Stop(); close(stopped) }()
+	deadline := time.Now().Add(5 * time.Second)
+	for !conn.Closed() && time.Now().Before(deadline) {
+		time.Sleep(time.Millisecond)
+	}
+	close(release)
+	select {
+	case <-stopped:
+	case <-time.After(serveTimeout()):
+		return failf("c20|stop-hangs", "%s: Stop did not return", what)
+	}
+	select {
+	case o := <-done:
+		if o.Panic != nil {
+			return failf("c20|panic|"+panicKey(o), "%s: panic: %v", what, o.Panic)
+		}
+	case <-time.After(serveTimeout()):
+		return stallFailure("c20", what)
+	}
+	return c20Analyze(what, log, tr, conn.Out())
+}
+
+func init() {
+	register("c20.pipe", evalC20)
+	register("c20.stop", evalC20Stop)
+}
 
 func TestC20(t *testing.T) {
 	h := newHarness(t, "C20", "the pipelines of C03/C10 (every command with valid, invalid, missing and surplus arguments, unknown commands, QUIT, composed commands, scripted handler errors), optionally interspersed with requests that carry no command (status line, integer, bulk, error, empty array, array with a null/integer/nested first element) "+
-		"x end of stream at a random byte offset (request boundary or inside a request) x reply writes failing after N bytes (the peer is gone) x optionally a required password (unauthorized requests, AUTH with right/wrong password); a tracer double records span start/finish in the same "+
+		"x end of stream at a random byte offset (request boundary or inside a request) x reply writes failing after N bytes (the peer is gone) x optionally a required password (unauthorized requests, AUTH with right/wrong password); plus connections ended by the SERVER (Stop while the connection waits for its next request or is parked inside a handler operation of a command); a tracer double records span start/finish in the same "+
 		"sequence-numbered log as handler calls and connection writes. Oracle: spans form a forest, each finished exactly once, children nested in parents, roots and siblings do not overlap, every write/handler call inside exactly one root, at most one reply per root. "+
 		"Non-trivial: the pipeline has a request whose outcome is not plain success (argument error, unknown, unauthorized, QUIT, cut, handler error, failed reply write) or a composed command. Distinct = distinct (stream, cut, password, script).")
 	defer h.Finish()
 	h.Probes()
+
+	h.Rapid("server-stop", h.N(300, 5000), func(rt *rapid.T) {
+		c := c20Stop{}
+		pool := [][]string{{"PING"}, {"GET", "k"}, {"SET", "k", "v"}, {"INCR", "n"}, {"NOSUCH"}, {"GET"}, {"MSET", "a", "1", "b", "2"}, {"HLEN", "h"}, {"ECHO", "x"}}
+		for i, n := 0, rapid.IntRange(0, 3).Draw(rt, "nreqs"); i < n; i++ {
+			c.Reqs = append(c.Reqs, rapid.SampledFrom(pool).Draw(rt, "req"))
+		}
+		if rapid.Bool().Draw(rt, "incmd") {
+			c.InCmd = rapid.SampledFrom([][]string{{"GET", "k"}, {"INCR", "n"}, {"APPEND", "k", "v"}, {"MSET", "a", "1", "b", "2"}, {"STRLEN", "k"}, {"HLEN", "h"}}).Draw(rt, "cmd")
+		}
+		h.Col.Case(true, []byte(fmt.Sprint("stop", c)), "server-stop")
+		h.Fail(rt, "c20.stop", c, evalC20Stop(c))
+	})
 
 	h.Rapid("pipelines", h.N(20000, 400000), func(rt *rapid.T) {
 		c, labels := genPipeline(rt, h.Avoid, 8, false)
